@@ -14,7 +14,7 @@ for c in json.load(open('/verif/MANIFEST.json'))['checks']:
   VERIF_BUILD_ONLY=1 ./run.sh "$n" || { echo "setup: build of $n failed" >&2; rc=1; }
 done
 # sub-checks started by a registered check through ev.RunSub
-for n in c02s c20s; do
+for n in c02s c09s c20s; do
   VERIF_BUILD_ONLY=1 ./run.sh "$n" || { echo "setup: build of $n failed" >&2; rc=1; }
 done
 exit $rc
